@@ -140,8 +140,8 @@ func (c *Check) runAll() *checkResult {
 	e := c.E
 	res := &checkResult{}
 	c.stage("reference", c.reference)
-	c.Log("corpus: %d inputs (%d fixtures, %d literals, %d residues, %d probes, %d mutated, %d long, %d residue reps); fresh-process checked %d; excluded %d",
-		c.CStats.Total, c.CStats.Fixtures, c.CStats.Literals, c.CStats.Residues, c.CStats.Probes, c.CStats.Mutated, c.CStats.Long, c.CStats.Reps, c.Ref.FreshChecked, c.Ref.ExcludedInputs)
+	c.Log("corpus: %d inputs (%d fixtures, %d literals, %d residues, %d probes, %d mutated, %d long, %d residue reps, %d grown by coverage, %d token-family members); fresh-process checked %d; excluded %d",
+		c.CStats.Total, c.CStats.Fixtures, c.CStats.Literals, c.CStats.Residues, c.CStats.Probes, c.CStats.Mutated, c.CStats.Long, c.CStats.Reps, c.CStats.Grown, c.CStats.Family, c.Ref.FreshChecked, c.Ref.ExcludedInputs)
 	c.stage("equivalence", c.equivalence)
 	c.Log("instrumented == shipped on %d evaluations; sync stubs reached: %v", c.EquivN-c.EquivBad, c.SyncSeen)
 
@@ -151,6 +151,9 @@ func (c *Check) runAll() *checkResult {
 	}
 	if !enough() {
 		c.stage("history_sweep", c.sweepHist)
+	}
+	if !enough() {
+		c.stage("family_sweep", c.sweepFamilies)
 	}
 	small := false
 	if !enough() && len(e.Report.Knobs) > 0 {
